@@ -1253,13 +1253,13 @@ class PyFat(object):
         # write fat sector
         self.fat = [0] * self.bpb_header["BPB_BytsPerSec"]
         if fat_type == PyFat.FAT_TYPE_FAT12:
-            self.fat[0] = 0x0FF0 | (self.bpb_header["BPB_Media"] % 0xF)
+            self.fat[0] = 0x0F00 | self.bpb_header["BPB_Media"]
             self.fat[1] = PyFat.FAT12_SPECIAL_EOC
         elif fat_type == PyFat.FAT_TYPE_FAT16:
-            self.fat[0] = 0xFFF0 | (self.bpb_header["BPB_Media"] % 0xF)
+            self.fat[0] = 0xFF00 | self.bpb_header["BPB_Media"]
             self.fat[1] = 0xFFFF
         elif fat_type == PyFat.FAT_TYPE_FAT32:
-            self.fat[0] = 0x0FFFFFF0 | (self.bpb_header["BPB_Media"] % 0xF)
+            self.fat[0] = 0x0FFFFF00 | self.bpb_header["BPB_Media"]
             self.fat[1] = 0x0FFFFFFF
         self.flush_fat()
 
